@@ -42,9 +42,19 @@ theorem proxy_does_not_write_target :
     proxyTargetWrites = [] ∧ proxyTargetMethods.all (fun m => lookupReach.contains m) = true ∧
     proxyTargetCalls = ["t.Timer.Observe"] ∧ proxyTargetAliases = ["tr := t.Transport"] := by decide
 
+/-- `rndPicker` is the model's `rndPick`: it indexes the ring with `randIntn(len(ring))`, and `randIntn` draws
+from math/rand's process-wide generator through the package's TOP-LEVEL functions only (which are safe for
+concurrent use: the generator sits behind its own lock) — the package holds no generator of its own
+(`*rand.Rand`, `rand.Source`: not safe for concurrent use), and `rand` is math/rand. -/
+theorem rnd_uses_locked_generator :
+    routeOwnGenerators = [] ∧ routeRandImports = ["math/rand"] ∧ rndPickerCalls = ["len", "randIntn"] ∧
+    randIntnCalls.contains "rand.Intn" = true ∧
+    randIntnCalls.all (fun c => ["rand.Intn", "rand.Seed", "rndOnce.Do", "time.Now", "time.Now().UnixNano"].contains c) = true := by
+  decide
+
 /-- The functions the write set was collected from still include the anchors of the property. -/
 theorem lookup_reach_covers_anchors :
-    ["GlobCache.Get", "Table.Lookup", "Table.lookup", "Table.matchingHosts", "rrPicker"].all
+    ["GlobCache.Get", "Table.Lookup", "Table.lookup", "Table.matchingHosts", "rrPicker", "rndPicker", "randIntn"].all
       (fun f => lookupReach.contains f) = true := by decide
 
 end Fabio.Props.C06Facts
